@@ -38,6 +38,8 @@ def plan(tier, seed):
     for i in range(4 if tier == 'quick' else 16):
         specs.append({'kind': 'invalid', 'count': 120 if tier == 'quick' else 600, 'cli': i < 2})
     specs.append({'kind': 'degenerate'})
+    for i in range(2 if tier == 'quick' else 6):
+        specs.append({'kind': 'big', 'count': 2})
     return specs
 
 
@@ -305,6 +307,25 @@ def run_shard(spec, ctx):
                     check_valid(ctx, src, w, None, set(), 'degenerate')
             ctx.sample({'degenerate': 'empty, whitespace-only, comment-only, no final newline'})
             return
+        if spec['kind'] == 'big':
+            # cart-sized programs: hundreds of statements, many comments, tens of thousands of characters
+            done = 0
+            for i in range(spec['count'] * 4):
+                if done >= spec['count']:
+                    break
+                p = progen.gen_program(rng, {'depth': 2, 'max_stmts': 2, 'top_stmts': (350, 220)[i % 2], 'goto': False,
+                                             'stat_bias': ['shortif'] * 10 + ['if', 'do', 'function', 'forin', 'qprint'] * 3,
+                                             'exotic_numbers': True, 'exotic_strings': True, 'multiline_strings': False,
+                                             'table_methods': 0.3})
+                src = layout.render(p, rng, style=('wild', 'normal', 'lines')[i % 3])
+                if src is None:
+                    ctx.monitor('generator_rejects')
+                    continue
+                done += 1
+                ctx.feature('big_programs')
+                ctx.monitor('big_program_chars', len(src))
+                check_valid(ctx, src, (2, 4, 0, 8)[i % 4], p.scopes, p.feats, 'valid-big')
+            return
         for i in range(spec['count']):
             depth = rng.choice((1, 2, 2, 3)) if not spec.get('deep') else rng.choice((3, 4, 5))
             p = progen.gen_program(rng, {'depth': depth, 'max_stmts': 4 if depth <= 3 else 2, 'exotic_numbers': True,
@@ -364,6 +385,8 @@ def gates(m, tier):
               'bare_cr_line_ends'):
         if f.get(k, 0) < 20:
             missed.append('%s seen %d times' % (k, f.get(k, 0)))
+    if f.get('big_programs', 0) < 3:
+        missed.append('cart-sized programs: %d' % f.get('big_programs', 0))
     if mon.get('formatter_runs', 0) < 500:
         missed.append('formatter runs: %d' % mon.get('formatter_runs', 0))
     if mon.get('cli_runs', 0) < 30:
